@@ -67,14 +67,16 @@ func (svr *Server) handshakeControlChannel(wsc websocket.Conn) {
 		buf.Reset()
 		defer buffers.Put(buf)
 		req.ResponseOK(buf, map[string]string{FieldChannel: channelID}, "")
+		// 先登记会话再回复：客户端收到 channel 后立即发起的 JOIN 必须能找到它
+		session := newSession(svr, wsc, channelID)
+		svr.sessions.Store(channelID, session)
 		_, err = wsc.Write(buf.Bytes())
 		if err != nil {
+			svr.sessions.Delete(channelID)
 			svr.logger.Error(err.Error())
 			wsc.Close()
 			break
 		}
-		session := newSession(svr, wsc, channelID)
-		svr.sessions.Store(channelID, session)
 		svr.logger.Debugf("wsp ===>>> \r\n%s", buf.String())
 		go session.process()
 		break
